@@ -31,7 +31,7 @@ def gen_case(rng):
     c["params"] = [{"rows": 1, "cols": 1, "grid": ""}]
     c["param_values"] = {"p": [jq(0)], "pc": [[] for _ in range(c["method"]["N"])], "pp": [[] for _ in range(c["method"]["N"] + 1)]}
     xs = [["s", "x", i] for i in range(nx)]
-    kind = rng.choice(["affine", "affine", "quadratic", "product"])
+    kind = rng.choice(["affine", "affine", "quadratic", "product", "twosided", "infder"])
     if kind == "affine" or nx == 0:
         terms = [(dyadic_nz(rng, -2, 2, 1), i) for i in range(nx) if rng.random() < 0.8] or [(Fraction(1), 0)]
         const = dyadic(rng, -1, 1, 1)
@@ -39,6 +39,17 @@ def gen_case(rng):
         for a, i in terms:
             e = ["+", e, ["*", gen.C(a), xs[i]]]
         c["inf"] = {"kind": "affine", "terms": [[jq(a), i] for a, i in terms], "const": jq(const), "expr": e}
+    elif kind == "twosided":
+        # both sides depend on the states:  e1 <= e2 + bound  (rows certify e1 - e2 <= bound)
+        i, j = rng.randrange(nx), rng.randrange(nx)
+        e1 = ["+", ["*", gen.C(dyadic_nz(rng, -2, 2, 1)), xs[i]], gen.C(dyadic(rng, -1, 1, 1))]
+        e2 = ["*", xs[j], xs[j]] if rng.random() < 0.5 else ["*", gen.C(dyadic_nz(rng, -2, 2, 1)), xs[j]]
+        c["inf"] = {"kind": "twosided", "lhs": e1, "rhs": e2, "expr": ["-", e1, e2],
+                    "deg": 8 if e2[0] == "*" and e2[1] == xs[j] else 4}
+    elif kind == "infder":
+        # the derivative of a state polynomial in physical time
+        i = rng.randrange(nx)
+        c["inf"] = {"kind": "infder", "state": i, "expr": xs[i]}
     elif kind == "quadratic":
         i = rng.randrange(nx)
         e = ["+", ["*", xs[i], xs[i]], ["*", gen.C(dyadic(rng, -1, 1, 1)), xs[rng.randrange(nx)]]]
@@ -72,11 +83,20 @@ def worker(args):
                 # a non-polynomial constraint: no Bernstein certificate exists, must be rejected
                 expr = {"sin": ca.sin, "exp": ca.exp, "inv": lambda e: 1 / (2 + e * e), "sqrt": lambda e: ca.sqrt(e * e + 1)}[case["inf"]["wrap"]](expr)
             pb = B.S["p"][0]
-            ocp.subject_to(expr <= ocp.inf_inert(pb), grid="inf")    # parameters must be declared inert
+            if case["inf"].get("wrap") or case["method"].get("intg") == "expl_euler" or \
+                    (case["method"]["kind"] == "DC" and case["method"].get("degree") != 4):
+                ocp.subject_to(expr <= ocp.inf_inert(pb), grid="inf")        # must-be-rejected cases: the plain form
+            elif case["inf"]["kind"] == "twosided":
+                ocp.subject_to(B.ex(case["inf"]["lhs"]) <= B.ex(case["inf"]["rhs"]) + ocp.inf_inert(pb), grid="inf")
+            elif case["inf"]["kind"] == "infder":
+                ocp.subject_to(ocp.inf_der(expr) <= ocp.inf_inert(pb), grid="inf")
+            else:
+                ocp.subject_to(expr <= ocp.inf_inert(pb), grid="inf")    # parameters must be declared inert
             R = 30
 
             def extras(B_, c_):
-                return [ocp.sample(expr, grid="integrator", refine=R)[1], ocp.value(pb)]
+                return [ocp.sample(expr, grid="integrator", refine=R)[1], ocp.value(pb),
+                        ocp.sample(ocp.t, grid="integrator", refine=R)[1]]
             ob = nlp.observe(B, case, extras)
             # which entry of the parameter vector is the bound?
             Jp = ca.Function("jp", [ob.x, ob.p], [ca.jacobian(ocp.value(pb), ob.p)])
@@ -97,7 +117,9 @@ def worker(args):
                 # independent certificate: on every integrator step the expression is a polynomial in the
                 # normalised step time; its Bernstein coefficients at the product degree are what the rows
                 # must bound (fit through the 30 refined samples of the step)
-                deg = 4 if case["inf"]["kind"] == "affine" else 8
+                kind_ = case["inf"]["kind"]
+                deg = 4 if kind_ in ("affine", "infder") else case["inf"].get("deg", 8)
+                tfine = np.array(ob.extra_f(xs, p0)[2]).reshape(-1)
                 nsteps = (len(fine) - 1) // R
                 bern = []
                 from math import comb
@@ -105,8 +127,14 @@ def worker(args):
                 for st in range(nsteps):
                     ys = fine[st * R: st * R + R]
                     a = np.polynomial.polynomial.polyfit(sgrid, ys, deg)
-                    for k in range(deg + 1):
-                        bern.append(float(sum(comb(k, i) / comb(deg, i) * a[i] for i in range(k + 1))))
+                    dg = deg
+                    if kind_ == "infder":
+                        # derivative in physical time of the step polynomial: d/ds divided by the step length
+                        hstep = (tfine[st * R + 1] - tfine[st * R]) * R
+                        a = np.array([(i + 1) * a[i + 1] for i in range(deg)]) / hstep
+                        dg = deg - 1
+                    for k in range(dg + 1):
+                        bern.append(float(sum(comb(k, i) / comb(dg, i) * a[i] for i in range(k + 1))))
                 res.append({"coeffs": sorted(float(v) for v in coeffs), "bstar": None if bstar is None else float(bstar),
                             "fine_max": float(np.max(fine)), "fine_min": float(np.min(fine)), "bern": sorted(bern)})
             out["res"] = res
@@ -162,7 +190,7 @@ def run(tier="quick", seed=0, jobs=16):
                 if abs(rp["bstar"]) > engine.BIG or not math.isfinite(rp["fine_max"]):
                     continue
                 tol = 1e-8 * (1 + abs(rp["bstar"]) + abs(rp["fine_max"]))
-                if rp["fine_max"] > rp["bstar"] + tol:
+                if case["inf"]["kind"] != "infder" and rp["fine_max"] > rp["bstar"] + tol:
                     d = [{"what": "the generated rows hold (tightly) at this decision point, yet the refined sample of the "
                                   "constrained expression exceeds the bound between grid points",
                           "bound": rp["bstar"], "max_of_refined_sample": rp["fine_max"], "point": p}]
@@ -172,7 +200,7 @@ def run(tier="quick", seed=0, jobs=16):
                     if any((not math.isfinite(v)) or abs(v) > 1e4 for v in bc + rp["coeffs"]):
                         continue
                     if len(bc) != len(rp["coeffs"]) or not all(engine.close(a, b, rtol=1e-6, scale=abs(b) + max(map(abs, bc))) for a, b in zip(rp["coeffs"], bc)):
-                        d = [{"what": "rows of the non-affine grid='inf' constraint are not the Bernstein coefficients (degree 8 per step) of the "
+                        d = [{"what": "rows of the grid='inf' constraint are not the Bernstein coefficients (product degree per step) of the "
                                       "constrained expression's step polynomials", "n_rockit": len(rp["coeffs"]), "n_expected": len(bc),
                               "rockit": rp["coeffs"][:9], "expected": bc[:9]}]
                         break
@@ -213,7 +241,7 @@ def run(tier="quick", seed=0, jobs=16):
                                           "(%s)" % ("non-polynomial expression: " + c["inf"]["wrap"] if c["inf"].get("wrap")
                                                     else "scheme without a degree-4 step polynomial")}]})
     return {"evaluations": len(items) + len(rej), "distinct_nontrivial": len(nontriv),
-            "rule": "random ODEs with 1-2 scalar states x a grid='inf' constraint (affine, quadratic, product of states) with a "
+            "rule": "random ODEs with 1-2 scalar states x a grid='inf' constraint (affine, quadratic, product of states, both sides state dependent, inf_der of a state) with a "
                     "parametric bound x {MS, SS with rk, DC degree 4} x N, M x uniform and geometric grids x fixed / free T, at "
                     "decision points where the bound is set to the largest generated coefficient: refined sample (30 per step) "
                     "must stay below it; affine rows against the model; euler / low-degree collocation and non-polynomial expressions (sin, exp, rational, sqrt) must be rejected.  "
